@@ -47,6 +47,8 @@ def ref_prune(n, strict, removed):
         if strict:
             try:
                 validate.node(c)
+                if c.name == "metadata" and len(c.children) > 1:
+                    raise MetapypeRuleError("a metadata element holds at most one child")      # (known without asking the validator)
             except Exception:  # noqa
                 n.remove_child(c)
                 removed.append(c)
@@ -147,6 +149,8 @@ def check(spec, strict, case, insert=False, copies=False):
                 if strict:
                     try:
                         validate.node(c)
+                        if c.name == "metadata" and len(c.children) > 1:
+                            raise MetapypeRuleError("a metadata element with %d children is still in the tree" % len(c.children))
                     except MetapypeRuleError as e:
                         bad("post_invalid_left", "every non-root node valid", repr(e))
                 post(c, False)
